@@ -5,6 +5,7 @@ import (
 	"go/ast"
 	"go/token"
 	"go/types"
+	"math"
 	"os"
 	"sort"
 	"strings"
@@ -71,6 +72,11 @@ type Engine struct {
 	inferClosures bool                   // Houdini-style closure precondition inference (see closureInfer)
 	autoPre       map[string][]*autoCand // closure -> candidate facts over its immutable captured cells
 	inferredUsed  map[string]bool
+	objInvUsed    map[string]*FuncContract // object-invariant preconditions assumed at call sites outside the declaring package
+	poolAllocs    map[*ssa.Function]bool
+	inferLoops    bool                      // Houdini-style loop invariant inference for integer loop counters
+	autoInv       map[string][]*autoInvCand // function -> candidate invariants
+	trialRound    int
 }
 
 type FuncExec struct {
@@ -87,9 +93,12 @@ type FuncExec struct {
 	canaryCount    map[string]int
 	localCellsDone bool
 	localCellList  []*ssa.Alloc
+	unescDone      bool
+	unescList      []*ssa.Alloc
 	paths          int
 	siteOrd        map[ssa.Instruction]string
 	sweep          bool // no contract: panic-class obligations only
+	trial          bool // invariant-inference run: only "infer" obligations are recorded
 	idom           map[*ssa.BasicBlock]*ssa.BasicBlock
 	assertAnchor   map[ssa.Instruction][]*AssertAt
 	ghostAnchor    map[ssa.Instruction][]*GhostSet
@@ -215,6 +224,9 @@ func (e *Engine) oblige(fx *FuncExec, st *State, class, key, goal, desc string, 
 	if goal == "true" {
 		// still register the obligation as trivially discharged
 	}
+	if fx.trial && class != "infer" {
+		return
+	}
 	name := fx.name + "/" + class + "/" + key
 	_, where := e.srcLine(pos)
 	e.mu.Lock()
@@ -286,9 +298,18 @@ type Exec struct {
 
 // verifyFunction generates all obligations of one function.
 func (e *Engine) verifyFunction(fn *ssa.Function, sweep bool) (err error) {
+	return e.verifyFunctionT(fn, sweep, false)
+}
+
+func (e *Engine) verifyFunctionT(fn *ssa.Function, sweep bool, trial bool) (err error) {
 	name := funcFullName(fn)
-	fx := &FuncExec{eng: e, fn: fn, name: name, modKeys: map[string]bool{}, havocGens: map[string]bool{}, sweep: sweep}
+	fx := &FuncExec{eng: e, fn: fn, name: name, modKeys: map[string]bool{}, havocGens: map[string]bool{}, sweep: sweep, trial: trial}
 	fx.contract = e.cs.Funcs[name]
+	if fx.contract == nil {
+		if o := fn.Origin(); o != nil {
+			fx.contract = e.cs.Funcs[funcFullName(o)] // instance of a generic function: the origin's contract
+		}
+	}
 	if fx.contract != nil {
 		fx.contract.Used = true
 		if fx.contract.Trusted {
@@ -314,17 +335,21 @@ func (e *Engine) verifyFunction(fn *ssa.Function, sweep bool) (err error) {
 	defer func() {
 		if r := recover(); r != nil {
 			if u, ok := r.(unsupportedErr); ok {
-				e.mu.Lock()
-				e.unsup[name] = append(e.unsup[name], u.msg)
-				e.mu.Unlock()
+				if !trial {
+					e.mu.Lock()
+					e.unsup[name] = append(e.unsup[name], u.msg)
+					e.mu.Unlock()
+				}
 				return
 			}
 			panic(r)
 		}
 	}()
-	e.mu.Lock()
-	e.funcsDone = append(e.funcsDone, name)
-	e.mu.Unlock()
+	if !trial {
+		e.mu.Lock()
+		e.funcsDone = append(e.funcsDone, name)
+		e.mu.Unlock()
+	}
 
 	// entry path
 	st := x.entryState(nil)
@@ -491,6 +516,7 @@ func (x *Exec) entryState(cut *ssa.BasicBlock) *State {
 			}
 		}
 		// assume invariants
+		x.assumeAutoInv(st, cut)
 		ord := fx.headers[cut]
 		if c := fx.contract; c != nil {
 			if ls := c.Loops[ord]; ls != nil {
@@ -692,6 +718,7 @@ func (x *Exec) checkInvariants(st *State, from, hdr *ssa.BasicBlock, ord int) {
 		}
 		phiVals[phi] = x.get(st, phi.Edges[idx])
 	}
+	x.checkAutoInv(st, hdr, ord, inLoop, phiVals)
 	if c == nil {
 		return
 	}
@@ -802,6 +829,7 @@ func (x *Exec) lookupLocalBefore(st *State, name string, at *ssa.BasicBlock, bef
 		return Value{}, false
 	}
 	var best ssa.Value
+	bestIsValue := false // best is the variable's value (x := &T{..} names the pointer, not a cell)
 	// dominators of `at` in execution order (entry first)
 	var chain []*ssa.BasicBlock
 	for d := at; d != nil; d = d.Idom() {
@@ -816,10 +844,12 @@ func (x *Exec) lookupLocalBefore(st *State, name string, at *ssa.BasicBlock, bef
 			case *ssa.Phi:
 				if v.Comment == name && (b != at || before != nil) {
 					best = v
+					bestIsValue = false
 				}
 			case *ssa.Alloc:
 				if v.Comment == name && !spilledParam(v) {
 					best = v
+					bestIsValue = false
 				}
 			case *ssa.DebugRef:
 				if id, ok := v.Expr.(*ast.Ident); ok && id.Name == name && !v.IsAddr {
@@ -835,6 +865,7 @@ func (x *Exec) lookupLocalBefore(st *State, name string, at *ssa.BasicBlock, bef
 						continue
 					}
 					best = v.X
+					bestIsValue = true
 				}
 			}
 		}
@@ -843,7 +874,7 @@ func (x *Exec) lookupLocalBefore(st *State, name string, at *ssa.BasicBlock, bef
 		return Value{}, false
 	}
 	val := x.get(st, best)
-	if a, ok := best.(*ssa.Alloc); ok {
+	if a, ok := best.(*ssa.Alloc); ok && !bestIsValue {
 		pt := a.Type().(*types.Pointer).Elem()
 		return st.loadAt(Addr{Root: val.T, Key: rootKey(pt), Ty: pt}), true
 	}
@@ -1186,7 +1217,13 @@ func constCell(v ssa.Value) bool {
 		for _, b := range p.Blocks {
 			for _, ins := range b.Instrs {
 				if mc, ok := ins.(*ssa.MakeClosure); ok && mc.Fn == f && idx >= 0 && idx < len(mc.Bindings) {
-					return constCell(mc.Bindings[idx])
+					if constCell(mc.Bindings[idx]) {
+						return true
+					}
+					if al, ok := mc.Bindings[idx].(*ssa.Alloc); ok {
+						return frozenAtClosure(al, mc)
+					}
+					return false
 				}
 			}
 		}
@@ -1297,4 +1334,380 @@ func (fx *FuncExec) singleStoreBefore(a *ssa.Alloc, hdr *ssa.BasicBlock) bool {
 		return false
 	}
 	return !fx.loopBody[hdr][st.Block()]
+}
+
+// ---- inferred loop invariants ----------------------------------------------------------------
+//
+// For an integer loop counter (a phi of a loop header whose values from outside the loop are one
+// constant c) the candidates "phi >= c" and "phi <= c" are tried: a trial run of the function
+// assumes all live candidates at the header and records, as obligations of class "infer", that
+// each holds on entry and is preserved by every path back to the header. Candidates whose
+// obligations do not all discharge are dropped and the trial is repeated until none is dropped
+// (Houdini); the survivors form an inductive invariant and are assumed in the real run.
+
+type autoInvCand struct {
+	Hdr  *ssa.BasicBlock
+	Phi  *ssa.Phi
+	Op   string // ">=" | "<="
+	C    int64
+	Text string
+	Dead bool
+	Obls []string // obligations of the current trial round
+}
+
+func (e *Engine) loopCands(fx *FuncExec) []*autoInvCand {
+	e.mu.Lock()
+	defer e.mu.Unlock()
+	if e.autoInv == nil {
+		e.autoInv = map[string][]*autoInvCand{}
+	}
+	if cs, ok := e.autoInv[fx.name]; ok {
+		return cs
+	}
+	var out []*autoInvCand
+	var hs []*ssa.BasicBlock
+	for h := range fx.headers {
+		hs = append(hs, h)
+	}
+	sort.Slice(hs, func(i, j int) bool { return hs[i].Index < hs[j].Index })
+	for _, h := range hs {
+		for _, ins := range h.Instrs {
+			phi, ok := ins.(*ssa.Phi)
+			if !ok {
+				break
+			}
+			if kindOf(phi.Type()) != VInt || isVarCellPhi(phi) || phi.Comment == "rangeindex" {
+				continue
+			}
+			var c0 int64
+			have, same := false, true
+			for k, p := range h.Preds {
+				if fx.loopBody[h][p] {
+					continue
+				}
+				c, ok := constInt(phi.Edges[k])
+				if !ok {
+					same = false
+					break
+				}
+				if have && c != c0 {
+					same = false
+				}
+				c0, have = c, true
+			}
+			nm := phi.Comment
+			if nm == "" {
+				nm = phi.Name()
+			}
+			// far from wrap-around (inductive for counters bounded by a length)
+			const far = 1 << 32
+			out = append(out, &autoInvCand{Hdr: h, Phi: phi, Op: "<=", C: math.MaxInt64 - far, Text: fmt.Sprintf("%s <= %d", nm, int64(math.MaxInt64-far))})
+			out = append(out, &autoInvCand{Hdr: h, Phi: phi, Op: ">=", C: math.MinInt64 + far, Text: fmt.Sprintf("%s >= %d", nm, int64(math.MinInt64+far))})
+			if !have || !same {
+				continue
+			}
+			for _, op := range []string{">=", "<="} {
+				out = append(out, &autoInvCand{Hdr: h, Phi: phi, Op: op, C: c0, Text: fmt.Sprintf("%s %s %d", nm, op, c0)})
+			}
+		}
+	}
+	e.autoInv[fx.name] = out
+	return out
+}
+
+func (c *autoInvCand) term(v string) string {
+	return fmt.Sprintf("(%s %s %s)", c.Op, v, smtIntS(fmt.Sprint(c.C)))
+}
+
+func (x *Exec) assumeAutoInv(st *State, cut *ssa.BasicBlock) {
+	if !x.eng.inferLoops {
+		return
+	}
+	for _, c := range x.eng.loopCands(x.fx) {
+		if c.Dead {
+			continue
+		}
+		if c.Hdr != cut {
+			// a path starting at an inner loop header runs inside the current iteration of the
+			// enclosing loop: the enclosing header's counter still has the value it had there
+			if x.fx.loopBody[c.Hdr][cut] && c.Hdr.Dominates(cut) {
+				v := x.get(st, c.Phi)
+				st.assume(c.term(v.T))
+			}
+			continue
+		}
+		if v, ok := st.env[c.Phi]; ok {
+			st.assume(c.term(v.T))
+			if !x.fx.trial {
+				x.eng.mu.Lock()
+				if x.eng.inferredUsed == nil {
+					x.eng.inferredUsed = map[string]bool{}
+				}
+				x.eng.inferredUsed[fmt.Sprintf("%s loop%d: %s", x.fx.name, x.fx.headers[cut], c.Text)] = true
+				x.eng.mu.Unlock()
+			}
+		}
+	}
+}
+
+func (x *Exec) checkAutoInv(st *State, hdr *ssa.BasicBlock, ord int, inLoop bool, phiVals map[*ssa.Phi]Value) {
+	if !x.eng.inferLoops || !x.fx.trial {
+		return
+	}
+	phase := "init"
+	if inLoop {
+		phase = "pres"
+	}
+	for _, c := range x.eng.loopCands(x.fx) {
+		if c.Hdr != hdr || c.Dead {
+			continue
+		}
+		v, ok := phiVals[c.Phi]
+		if !ok {
+			continue
+		}
+		opw := map[string]string{">=": "ge", "<=": "le"}[c.Op]
+		key := fmt.Sprintf("round%d:loop%d:%s.%s.%s", x.eng.trialRound, ord, strings.ReplaceAll(c.Text, c.Op, opw), c.Op, phase)
+		x.eng.oblige(x.fx, st, "infer", key, c.term(v.T), "candidate loop invariant (assumed only if inductive): "+c.Text, hdr.Instrs[0].Pos())
+		name := x.fx.name + "/infer/" + key
+		found := false
+		for _, o := range c.Obls {
+			if o == name {
+				found = true
+			}
+		}
+		if !found {
+			c.Obls = append(c.Obls, name)
+		}
+	}
+}
+
+// inferLoopInvariants runs the Houdini iteration for the given functions (all of one closure depth).
+func (e *Engine) inferLoopInvariants(fns []*ssa.Function, sweep map[*ssa.Function]bool, discharge func()) {
+	if !e.inferLoops {
+		return
+	}
+	live := map[*ssa.Function]bool{}
+	for _, fn := range fns {
+		if len(fn.Blocks) == 0 {
+			continue
+		}
+		if k := e.cs.Funcs[funcFullName(fn)]; k != nil && k.Trusted {
+			continue
+		}
+		fx := &FuncExec{eng: e, fn: fn, name: funcFullName(fn)}
+		fx.findLoops()
+		if len(fx.headers) == 0 {
+			continue
+		}
+		if len(e.loopCands(fx)) > 0 {
+			live[fn] = true
+		}
+	}
+	for round := 1; round <= 4 && len(live) > 0; round++ {
+		e.trialRound = round
+		for _, fn := range fns {
+			if !live[fn] {
+				continue
+			}
+			for _, c := range e.autoInv[funcFullName(fn)] {
+				c.Obls = nil
+			}
+			e.verifyFunctionT(fn, sweep[fn], true)
+		}
+		discharge()
+		for _, fn := range fns {
+			if !live[fn] {
+				continue
+			}
+			dropped := false
+			for _, c := range e.autoInv[funcFullName(fn)] {
+				if c.Dead {
+					continue
+				}
+				ok := len(c.Obls) > 0
+				for _, o := range c.Obls {
+					if ob := e.obls[o]; ob == nil || ob.status() != "unsat" {
+						ok = false
+					}
+				}
+				if !ok {
+					c.Dead = true
+					dropped = true
+				}
+			}
+			if !dropped {
+				delete(live, fn)
+			}
+		}
+	}
+	// not stable within the round limit: assume nothing for those functions
+	for fn := range live {
+		for _, c := range e.autoInv[funcFullName(fn)] {
+			c.Dead = true
+		}
+	}
+}
+
+// genericBody reports whether fn is an uninstantiated generic function (or an instance over the
+// type parameters of another generic body): only its concrete instances are executable code.
+func genericBody(fn *ssa.Function) bool {
+	for f := fn; f != nil; f = f.Parent() {
+		if f.TypeParams().Len() > 0 && len(f.TypeArgs()) == 0 {
+			return true
+		}
+		for _, t := range f.TypeArgs() {
+			if _, ok := t.(*types.TypeParam); ok {
+				return true
+			}
+		}
+	}
+	return false
+}
+
+// frozenAtClosure reports whether the local variable cell a, captured by the closure created at
+// mc, can no longer change once mc has executed: every store to it is in the enclosing function
+// at a point that cannot follow mc, and every closure capturing it only loads it. For the
+// closure the cell is then immutable (its content is whatever it held at creation).
+func frozenAtClosure(a *ssa.Alloc, mc *ssa.MakeClosure) bool {
+	refs := a.Referrers()
+	if refs == nil {
+		return false
+	}
+	after := map[*ssa.BasicBlock]bool{}
+	var stack []*ssa.BasicBlock
+	stack = append(stack, mc.Block().Succs...)
+	for len(stack) > 0 {
+		b := stack[len(stack)-1]
+		stack = stack[:len(stack)-1]
+		if after[b] {
+			continue
+		}
+		after[b] = true
+		stack = append(stack, b.Succs...)
+	}
+	for _, r := range *refs {
+		switch u := r.(type) {
+		case *ssa.UnOp:
+			if u.Op != token.MUL {
+				return false
+			}
+		case *ssa.DebugRef:
+		case *ssa.Store:
+			if u.Addr != ssa.Value(a) || u.Val == ssa.Value(a) {
+				return false
+			}
+			if after[u.Block()] || (u.Block() == mc.Block() && instrIndex(u) > instrIndex(mc)) {
+				return false
+			}
+		case *ssa.MakeClosure:
+			f := u.Fn.(*ssa.Function)
+			for i, b := range u.Bindings {
+				if b == ssa.Value(a) {
+					if i >= len(f.FreeVars) || !cellUsesConst(f.FreeVars[i], nil, 1) {
+						return false
+					}
+				}
+			}
+		default:
+			return false
+		}
+	}
+	return true
+}
+
+// unescapedLocals lists local variable objects (structs addressed for method calls) whose
+// address is only ever dereferenced, used for field/element addresses, or handed as an argument
+// to a statically known callee that has a contract with a frame (modifies / pure): such a callee
+// states everything it does to the object and is assumed not to retain the pointer. No other
+// code can reach these objects, so an unknown callee (or "modifies world") leaves them alone.
+func (fx *FuncExec) unescapedLocals() []*ssa.Alloc {
+	if fx.unescDone {
+		return fx.unescList
+	}
+	fx.unescDone = true
+	if fx.fn == nil {
+		return nil
+	}
+	isLocal := map[*ssa.Alloc]bool{}
+	for _, a := range fx.localCells() {
+		isLocal[a] = true
+	}
+	var ok func(v ssa.Value, depth int) bool
+	ok = func(v ssa.Value, depth int) bool {
+		refs := v.Referrers()
+		if refs == nil || depth > 4 {
+			return false
+		}
+		for _, r := range *refs {
+			switch u := r.(type) {
+			case *ssa.UnOp:
+				if u.Op != token.MUL {
+					return false
+				}
+			case *ssa.DebugRef:
+			case *ssa.Store:
+				if u.Addr != v {
+					return false
+				}
+			case *ssa.FieldAddr:
+				if !ok(u, depth+1) {
+					return false
+				}
+			case *ssa.IndexAddr:
+				if !ok(u, depth+1) {
+					return false
+				}
+			case ssa.CallInstruction:
+				cc := u.Common()
+				if cc.IsInvoke() || cc.Value == v {
+					return false
+				}
+				callee, isStatic := cc.Value.(*ssa.Function)
+				if !isStatic {
+					return false
+				}
+				k := fx.eng.cs.Funcs[funcFullName(callee)]
+				if k == nil {
+					if o := callee.Origin(); o != nil {
+						k = fx.eng.cs.Funcs[funcFullName(o)]
+					}
+				}
+				if k == nil {
+					// a small loop-free method of the repository is executed inline: it must itself
+					// only dereference its receiver
+					if !inlinableFn(callee, 0, fx.fn) || len(callee.Params) == 0 || cc.Args[0] != v {
+						return false
+					}
+					for i, a := range cc.Args {
+						if i > 0 && a == v {
+							return false
+						}
+					}
+					if !ok(callee.Params[0], depth+1) {
+						return false
+					}
+				} else if !(k.HasMod || k.Pure) {
+					return false
+				}
+				if _, isGo := u.(*ssa.Go); isGo {
+					return false
+				}
+			default:
+				return false
+			}
+		}
+		return true
+	}
+	for _, b := range fx.fn.Blocks {
+		for _, ins := range b.Instrs {
+			if a, isA := ins.(*ssa.Alloc); isA && !isLocal[a] && ok(a, 0) {
+				if _, isArr := a.Type().(*types.Pointer).Elem().Underlying().(*types.Array); isArr {
+					continue
+				}
+				fx.unescList = append(fx.unescList, a)
+			}
+		}
+	}
+	return fx.unescList
 }
